@@ -70,6 +70,8 @@ type Ctx struct {
 	outcomes map[uint64]struct{}
 	counter  int64
 	mu       sync.Mutex
+
+	expiredSeen bool
 }
 
 func (c *Ctx) Thorough() bool { return c.Tier == "thorough" }
@@ -114,7 +116,14 @@ func (c *Ctx) Sample(v any) {
 func (c *Ctx) State(n int)      { c.res.States += int64(n) }
 func (c *Ctx) Transition(n int) { c.res.Transitions += int64(n) }
 func (c *Ctx) Trace(n int)      { c.res.Traces += int64(n) }
-func (c *Ctx) Cap(s string)     { c.res.Caps = append(c.res.Caps, s) }
+func (c *Ctx) Cap(s string) {
+	for _, x := range c.res.Caps {
+		if x == s {
+			return
+		}
+	}
+	c.res.Caps = append(c.res.Caps, s)
+}
 func (c *Ctx) Note(s string) {
 	if len(c.res.Notes) < 50 {
 		c.res.Notes = append(c.res.Notes, s)
@@ -140,7 +149,17 @@ func (c *Ctx) Flush() {
 }
 
 // Expired reports whether the wall budget of this run is used up.
-func (c *Ctx) Expired() bool { return time.Now().After(c.Deadline) }
+// The first time it does, the cap is recorded, so that a tier cut short is never reported as exhaustive.
+func (c *Ctx) Expired() bool {
+	if !time.Now().After(c.Deadline) {
+		return false
+	}
+	if !c.expiredSeen {
+		c.expiredSeen = true
+		c.Cap("wall budget")
+	}
+	return true
+}
 
 func (c *Ctx) Violation(class, detail string, replay any) {
 	c.res.VioCounts[class]++
@@ -273,7 +292,7 @@ func budget(p *Prop, tier string) time.Duration {
 		if tier == "thorough" {
 			b = 30 * time.Minute
 		} else {
-			b = 4 * time.Minute
+			b = 8 * time.Minute
 		}
 	}
 	if s := os.Getenv("VERIF_BUDGET_S"); s != "" {
@@ -431,7 +450,14 @@ func coordinate(p *Prop, tier string, seed int64, workers int, triage, writeKnow
 	baseline, haveBaseline := loadBaseline(p.ID, tier)
 	grew := map[string]int64{}
 	if writeKnown {
-		writeBaseline(p.ID, tier, classes, merged.VioCounts, findings)
+		if len(merged.Caps) > 0 && os.Getenv("VERIF_BASELINE_FROM_CAPPED") == "" {
+			// a baseline taken from a run that was cut short under-counts: a later complete run would then
+			// report known classes as having grown
+			fmt.Printf("NOT writing %s: this run hit caps %v (a baseline must come from a complete run)\n", baselinePath(p.ID, tier), merged.Caps)
+			writeKnown = false
+		} else {
+			writeBaseline(p.ID, tier, classes, merged.VioCounts, findings)
+		}
 	}
 	for _, cl := range classes {
 		matched := false
